@@ -23,7 +23,16 @@ def main():
     wt = f'/tmp/seed/{pid}'
     seeds = sorted(f[:-5] for f in os.listdir(f'{wt}/_seed') if f.endswith('.diff'))
     for m in seeds:
-        dst = f'{VERIF}/seeded/{pid}-{m}'
+        # a stored seed is identified by its patch: re-evaluating one rewrites its directory, a new one gets the next free number
+        patch = open(f'{wt}/_seed/{m}.diff').read()
+        dst = None
+        n = 1
+        while os.path.isdir(f'{VERIF}/seeded/{pid}-m{n}'):
+            if open(f'{VERIF}/seeded/{pid}-m{n}/patch.diff').read() == patch:
+                dst = f'{VERIF}/seeded/{pid}-m{n}'
+                break
+            n += 1
+        dst = dst or f'{VERIF}/seeded/{pid}-m{n}'
         os.makedirs(dst, exist_ok=True)
         shutil.copy(f'{wt}/_seed/{m}.diff', f'{dst}/patch.diff')
         shutil.copy(f'{wt}/_seed/{m}_demo.py', f'{dst}/demo.py')
@@ -53,14 +62,14 @@ def main():
                     break
         finally:
             sh('git checkout -- .', cwd=wt)
-        meta = dict(property=pid, seed=m, breaks=open(f'{dst}/notes.md').read() if os.path.exists(f'{dst}/notes.md') else '',
+        meta = dict(property=pid, seed=os.path.basename(dst).split('-')[1], breaks=open(f'{dst}/notes.md').read() if os.path.exists(f'{dst}/notes.md') else '',
                     demo_exit_clean=clean_rc, demo_exit_with_change=mut_rc, baseline_tests_with_change=tests.strip()[-60:],
                     confirmed=(clean_rc == 0 and mut_rc != 0 and '39 passed' in tests),
                     checks=runs, detected=detected,
                     how_run='patch applied in a scratch git worktree of /repo HEAD; check run with VERIF_REPO=<worktree> ./vcheck run '
                             f'{pid} --tier <tier> --no-evidence; worktree restored with git checkout -- .')
         json.dump(meta, open(f'{dst}/meta.json', 'w'), indent=1)
-        print(pid, m, 'confirmed' if meta['confirmed'] else 'NOT-CONFIRMED', 'DETECTED' if detected else 'missed',
+        print(pid, os.path.basename(dst), 'confirmed' if meta['confirmed'] else 'NOT-CONFIRMED', 'DETECTED' if detected else 'missed',
               [(r['tier'], r['exit'], r['wall_s']) for r in runs], flush=True)
 
 
